@@ -10,7 +10,7 @@
      program on a value, allocates the fresh storage the Go code allocates and LOGS THE REGION OF EVERY WRITE.
    - [dump_endpoint]: what each query variant of /api/v1/config_dump serialises.
    The shape of the two defect sites is read from the source (src_* switches of Gen/CfgTypes.v). *)
-From Coq Require Import List String Bool ZArith NArith.
+From Coq Require Import List String Bool ZArith NArith Ascii.
 From MV Require Import Lib.GoJson Gen.CfgTypes.
 Import ListNotations.
 Open Scope string_scope.
@@ -690,3 +690,119 @@ Fixpoint same_but_keys (a b : json) {struct a} : Prop :=
 Definition ext_json_case := (json * json)%type.
 Definition ext_json_case_ok (k : ext_json_case) : bool := json_eqb (blank_json_keys (fst k)) (snd k).
 Definition ext_json_mismatches (l : list ext_json_case) : list nat := mismatches_from ext_json_case_ok 0 l.
+
+(* ---------------------------------------------------------------- the redaction of a TEXT, whatever its spelling *)
+(* RedactDumpJSON works on the value the text DECODES to: member names are compared after unescaping (private\u005fkey,
+   \u0050rivate_key ... are private_key to every JSON decoder), ignoring case as encoding/json matches field names.
+   sjson: a JSON document with member names and strings as SPELLED in the text (the literal bodies between the quotes). *)
+Local Open Scope N_scope.
+Definition hex_val (c : ascii) : option N :=
+  let n := N_of_ascii c in
+  if (N.leb 48 n && N.leb n 57)%bool then Some (n - 48)
+  else if (N.leb 65 n && N.leb n 70)%bool then Some (n - 55)
+  else if (N.leb 97 n && N.leb n 102)%bool then Some (n - 87)
+  else None.
+(* UTF-8 of a code point of the basic plane that is not a surrogate (those come in pairs: outside this model) *)
+Definition utf8 (cp : N) : option string :=
+  if N.ltb cp 128 then Some (String (ascii_of_N cp) "")
+  else if N.ltb cp 2048 then Some (String (ascii_of_N (192 + cp / 64)) (String (ascii_of_N (128 + cp mod 64)) ""))
+  else if (N.leb 55296 cp && N.leb cp 57343)%bool then None
+  else Some (String (ascii_of_N (224 + cp / 4096)) (String (ascii_of_N (128 + (cp / 64) mod 64)) (String (ascii_of_N (128 + cp mod 64)) ""))).
+(* the string a JSON string literal body denotes; None: not a valid body (raw control character, raw quote, bad escape) *)
+Fixpoint unescape (s : string) : option string :=
+  match s with
+  | EmptyString => Some EmptyString
+  | String c r =>
+    if Ascii.eqb c "\"%char then
+      match r with
+      | String e r1 =>
+        let simple (x : ascii) := option_map (String x) (unescape r1) in
+        if Ascii.eqb e """"%char then simple """"%char
+        else if Ascii.eqb e "\"%char then simple "\"%char
+        else if Ascii.eqb e "/"%char then simple "/"%char
+        else if Ascii.eqb e "b"%char then simple (ascii_of_N 8)
+        else if Ascii.eqb e "f"%char then simple (ascii_of_N 12)
+        else if Ascii.eqb e "n"%char then simple (ascii_of_N 10)
+        else if Ascii.eqb e "r"%char then simple (ascii_of_N 13)
+        else if Ascii.eqb e "t"%char then simple (ascii_of_N 9)
+        else if Ascii.eqb e "u"%char then
+          match r1 with
+          | String h1 (String h2 (String h3 (String h4 r2))) =>
+            match hex_val h1, hex_val h2, hex_val h3, hex_val h4 with
+            | Some a, Some b, Some c', Some d =>
+              match utf8 (((a * 16 + b) * 16 + c') * 16 + d), unescape r2 with
+              | Some u, Some t => Some (u ++ t)
+              | _, _ => None
+              end
+            | _, _, _, _ => None
+            end
+          | _ => None
+          end
+        else None
+      | EmptyString => None
+      end
+    else if (Ascii.eqb c """"%char || N.ltb (N_of_ascii c) 32)%bool then None
+    else option_map (String c) (unescape r)
+  end.
+
+Inductive sjson :=
+| SNull | SBool (b : bool) | SNum (lit : string) | SStr (lit : string)
+| SArr (l : list sjson) | SObj (kvs : list (string * sjson)).
+
+Fixpoint sdecode (s : sjson) : option json :=
+  match s with
+  | SNull => Some JNull
+  | SBool b => Some (JBool b)
+  | SNum l => Some (JNum l)
+  | SStr lit => option_map JStr (unescape lit)
+  | SArr l =>
+    option_map JArr ((fix go (l : list sjson) : option (list json) :=
+                        match l with
+                        | [] => Some []
+                        | x :: l' => match sdecode x, go l' with Some a, Some b => Some (a :: b) | _, _ => None end
+                        end) l)
+  | SObj kvs =>
+    option_map JObj ((fix go (kvs : list (string * sjson)) : option (list (string * json)) :=
+                        match kvs with
+                        | [] => Some []
+                        | (k, x) :: r => match unescape k, sdecode x, go r with
+                                         | Some k', Some a, Some b => Some ((k', a) :: b)
+                                         | _, _, _ => None
+                                         end
+                        end) kvs)
+  end.
+
+(* the redaction of a text: of the value it decodes to *)
+Definition redact_text (s : sjson) : option json := option_map blank_json_keys (sdecode s).
+
+(* the text itself (compact), for the variant below *)
+Fixpoint sprint (s : sjson) : string :=
+  match s with
+  | SNull => "null" | SBool true => "true" | SBool false => "false" | SNum l => l
+  | SStr lit => String """" (lit ++ String """" "")
+  | SArr l => String "[" ((fix go (l : list sjson) : string :=
+                             match l with [] => "" | [x] => sprint x | x :: l' => sprint x ++ String "," (go l') end) l ++ "]")
+  | SObj kvs => String "{" ((fix go (kvs : list (string * sjson)) : string :=
+                               match kvs with
+                               | [] => ""
+                               | [(k, x)] => String """" (k ++ String """" (String ":" (sprint x)))
+                               | (k, x) :: r => String """" (k ++ String """" (String ":" (sprint x))) ++ String "," (go r)
+                               end) kvs ++ "}")
+  end.
+Definition lower_ascii (c : ascii) : ascii :=
+  let n := N_of_ascii c in if (N.leb 65 n && N.leb n 90)%bool then ascii_of_N (n + 32) else c.
+Fixpoint lower (s : string) : string := match s with String c r => String (lower_ascii c) (lower r) | EmptyString => EmptyString end.
+Fixpoint contains (needle hay : string) : bool :=
+  match hay with
+  | EmptyString => match needle with EmptyString => true | _ => false end
+  | String _ r => (String.prefix needle hay || contains needle r)%bool
+  end.
+(* a defective variant: decode and redact only when the lower-cased TEXT contains the name *)
+Definition redact_text_prefiltered (s : sjson) : option json :=
+  if contains tls_key_json (lower (sprint s)) then redact_text s else sdecode s.
+
+(* correspondence: (stored text as spelled, members sorted by decoded name; the value the real RedactDumpJSON's output decodes to) *)
+Definition spelled_case := (sjson * json)%type.
+Definition spelled_case_ok (k : spelled_case) : bool :=
+  match redact_text (fst k) with Some j => json_eqb j (snd k) | None => false end.
+Definition spelled_mismatches (l : list spelled_case) : list nat := mismatches_from spelled_case_ok 0 l.
